@@ -4,6 +4,7 @@ import (
 	"bytes"
 	"encoding/binary"
 	"fmt"
+	"io"
 	"math"
 	"math/rand"
 	"strings"
@@ -43,6 +44,11 @@ var c01Table = []c01Col{
 	{"FIXED_LEN_BYTE_ARRAY", 1, "PLAIN"}, {"FIXED_LEN_BYTE_ARRAY", 5, "PLAIN"}, {"FIXED_LEN_BYTE_ARRAY", 16, "PLAIN"},
 	{"FIXED_LEN_BYTE_ARRAY", 3, "DELTA_BYTE_ARRAY"}, {"FIXED_LEN_BYTE_ARRAY", 16, "DELTA_BYTE_ARRAY"},
 	{"FIXED_LEN_BYTE_ARRAY", 2, "BYTE_STREAM_SPLIT"}, {"FIXED_LEN_BYTE_ARRAY", 16, "BYTE_STREAM_SPLIT"},
+	// lengths on both sides of the 16- and 32-byte thresholds at which the decoders / encoders switch kernels
+	{"FIXED_LEN_BYTE_ARRAY", 15, "DELTA_BYTE_ARRAY"}, {"FIXED_LEN_BYTE_ARRAY", 17, "DELTA_BYTE_ARRAY"},
+	{"FIXED_LEN_BYTE_ARRAY", 32, "DELTA_BYTE_ARRAY"}, {"FIXED_LEN_BYTE_ARRAY", 33, "DELTA_BYTE_ARRAY"},
+	{"FIXED_LEN_BYTE_ARRAY", 17, "PLAIN"}, {"FIXED_LEN_BYTE_ARRAY", 32, "PLAIN"},
+	{"FIXED_LEN_BYTE_ARRAY", 17, "BYTE_STREAM_SPLIT"}, {"FIXED_LEN_BYTE_ARRAY", 32, "BYTE_STREAM_SPLIT"},
 }
 
 func (c c01Col) node() parquet.Node {
@@ -186,7 +192,7 @@ func (t c01Triple) String() string {
 // RunC01Pages ties the typed column codecs and the page framings of the Lean file model
 // (FileCodecsTyped: mkCodec over valCodecOf, packV1 / packSections) to the real writer, page by page.
 func RunC01Pages(ctx *core.Ctx) {
-	ctx.SetRule("pages: every physical type x value encoding of the model's table x column shape {required, optional, repeated, repeated group of optional} x data page version {1,2}, uncompressed, random values (boundary patterns, runs, nulls, empty lists) and page buffer sizes: each stored data page is cut out of the file (offset index + thrift page header) and (L2 write side) compared byte for byte with the model writer's page (MIRROR encoders, v1 body framing / v2 sections) for the same triples, (L2 read side) decoded by the model reader (SPEC decoders) and compared with the triples written; non-trivial = a page with both nulls and values or more than one page")
+	ctx.SetRule("pages: every physical type x value encoding of the model's table x column shape {required, optional, repeated, repeated group of optional} x data page version {1,2}, uncompressed, random values (boundary patterns, runs, nulls, empty lists) and page buffer sizes: each stored data page is cut out of the file (offset index + thrift page header) and (L2 write side) compared byte for byte with the model writer's page (MIRROR encoders, v1 body framing / v2 sections) for the same triples, (L2 read side) decoded by the model reader (SPEC decoders) and compared with the triples written, and read by the real page reader whose triples must equal those of the model reader built from the MIRRORS of the Go decoders (c01.decgo: levels, values, dirty recycled buffers); non-trivial = a page with both nulls and values or more than one page")
 	ncases := ctx.Scale(3, 40)
 	var wg sync.WaitGroup
 	sem := make(chan struct{}, 16)
@@ -351,6 +357,16 @@ func c01PageCase(ctx *core.Ctx, d interface {
 		head := fmt.Sprintf("%s %d %s %d %d %d", col.ptype, col.flen, col.enc, v1, maxRep, maxDef)
 		reqs = append(reqs, fmt.Sprintf("c01.enc %s %s %s %s", head, core.JoinInts(reps), core.JoinInts(defs), vs))
 		reqs = append(reqs, fmt.Sprintf("c01.dec %s %d %s %s %s", head, p.numValues, core.Hex(p.reps), core.Hex(p.defs), core.Hex(p.vals)))
+		// the mirror of the BYTE_STREAM_SPLIT FIXED_LEN_BYTE_ARRAY decoder writes its destination by index
+		// (quadratic on lists): large pages of that one codec go through the SPEC reader only
+		goOp := "c01.decgo"
+		if col.ptype == "FIXED_LEN_BYTE_ARRAY" && col.enc == "BYTE_STREAM_SPLIT" && len(p.vals) > 4096 {
+			goOp = "c01.dec"
+			ctx.Hist("pages-go-mirror", "skipped: large BYTE_STREAM_SPLIT FLBA page")
+		} else {
+			ctx.Hist("pages-go-mirror", "compared")
+		}
+		reqs = append(reqs, fmt.Sprintf("%s %s %d %s %s %s", goOp, head, p.numValues, core.Hex(p.reps), core.Hex(p.defs), core.Hex(p.vals)))
 	}
 	if off != len(stream) {
 		ctx.Fail("L1", "pages value-count "+sig, fmt.Sprintf("page headers announce %d values, %d written", off, len(stream)), detail(nil))
@@ -365,16 +381,16 @@ func c01PageCase(ctx *core.Ctx, d interface {
 		return
 	}
 	for i, g := range pgs {
-		encAns, decAns := ans[2*i], ans[2*i+1]
+		encAns, decAns, goAns := ans[3*i], ans[3*i+1], ans[3*i+2]
 		f := strings.Fields(encAns)
 		want := fmt.Sprintf("%s %s %s", core.Hex(g.p.reps), core.Hex(g.p.defs), core.Hex(g.p.vals))
 		switch {
 		case len(f) != 5 || f[0] != "ok":
-			ctx.Fail("L2", "pages model-writer-refuses "+sig, "model writer answered "+encAns, detail(map[string]any{"page": i, "request": reqs[2*i]}))
+			ctx.Fail("L2", "pages model-writer-refuses "+sig, "model writer answered "+encAns, detail(map[string]any{"page": i, "request": reqs[3*i]}))
 		case f[1] != "1":
-			ctx.Fail("L2", "pages inadmissible "+sig, "the model calls a page the real writer produced inadmissible", detail(map[string]any{"page": i, "request": reqs[2*i]}))
+			ctx.Fail("L2", "pages inadmissible "+sig, "the model calls a page the real writer produced inadmissible", detail(map[string]any{"page": i, "request": reqs[3*i]}))
 		case strings.Join(f[2:], " ") != want:
-			ctx.Fail("L2", "pages bytes-differ "+sig+" "+shapeName, "stored page differs from the model writer's page (reps defs vals; v1: whole body last)", detail(map[string]any{"page": i, "real": want, "model": strings.Join(f[2:], " "), "request": reqs[2*i]}))
+			ctx.Fail("L2", "pages bytes-differ "+sig+" "+shapeName, "stored page differs from the model writer's page (reps defs vals; v1: whole body last)", detail(map[string]any{"page": i, "real": want, "model": strings.Join(f[2:], " "), "request": reqs[3*i]}))
 		}
 		var exp []string
 		for _, t := range g.expect {
@@ -385,7 +401,15 @@ func c01PageCase(ctx *core.Ctx, d interface {
 			wantDec = "ok " + strings.Join(exp, ",")
 		}
 		if decAns != wantDec {
-			ctx.Fail("L2", "pages model-reader-differs "+sig+" "+shapeName, "the model reader (SPEC decoders) does not read the stored page as the triples written", detail(map[string]any{"page": i, "model": decAns, "written": wantDec, "request": reqs[2*i+1]}))
+			ctx.Fail("L2", "pages model-reader-differs "+sig+" "+shapeName, "the model reader (SPEC decoders) does not read the stored page as the triples written", detail(map[string]any{"page": i, "model": decAns, "written": wantDec, "request": reqs[3*i+1]}))
+		}
+		// read side, Go decoders: the real page reader against the written triples (L1) and against the
+		// model reader built from the MIRRORS of the Go decoders (L2)
+		if g.p.read != wantDec {
+			ctx.Fail("L1", "pages real-reader-differs "+sig+" "+shapeName, "Pages().ReadPage().Values() does not return the triples written", detail(map[string]any{"page": i, "read": g.p.read, "written": wantDec}))
+		}
+		if goAns != g.p.read {
+			ctx.Fail("L2", "pages go-mirror-reader-differs "+sig+" "+shapeName, "the model reader built from the mirrors of the Go decoders (c01.decgo) and the real page reader disagree on a stored page", detail(map[string]any{"page": i, "model": goAns, "real": g.p.read, "request": reqs[3*i+2]}))
 		}
 	}
 }
@@ -394,6 +418,7 @@ func c01PageCase(ctx *core.Ctx, d interface {
 type c01RawPage struct {
 	numValues        int
 	reps, defs, vals []byte
+	read             string // the page as the real reader returns it: triples value/rep/def, or "err: ..."
 }
 
 func c01WritePages(rows []parquet.Row, opts []parquet.WriterOption) (pages []c01RawPage, err error) {
@@ -441,6 +466,48 @@ func c01WritePages(rows []parquet.Row, opts []parquet.WriterOption) (pages []c01
 				return nil, fmt.Errorf("page %d is not a data page", i)
 			}
 		}
+	}
+	// the same pages through the real read path (Pages().ReadPage, Values().ReadValues)
+	k := 0
+	for _, rg := range f.RowGroups() {
+		pr := rg.ColumnChunks()[0].Pages()
+		for {
+			pg, err := pr.ReadPage()
+			if err != nil {
+				if err != io.EOF && k < len(pages) {
+					pages[k].read = "err: " + err.Error()
+				}
+				break
+			}
+			var ts []string
+			vr := pg.Values()
+			buf := make([]parquet.Value, 97)
+			for {
+				n, err := vr.ReadValues(buf)
+				for _, v := range buf[:n] {
+					t := c01Triple{null: v.IsNull(), rep: v.RepetitionLevel(), def: v.DefinitionLevel()}
+					if !t.null {
+						t.val = bytes.Clone(v.Bytes())
+					}
+					ts = append(ts, t.String())
+				}
+				if err != nil || n == 0 {
+					break
+				}
+			}
+			parquet.Release(pg)
+			if k < len(pages) {
+				pages[k].read = "ok -"
+				if len(ts) > 0 {
+					pages[k].read = "ok " + strings.Join(ts, ",")
+				}
+			}
+			k++
+		}
+		pr.Close()
+	}
+	if k != len(pages) {
+		return nil, fmt.Errorf("the page reader returned %d pages, the offset index lists %d", k, len(pages))
 	}
 	return pages, nil
 }
